@@ -23,6 +23,9 @@ Static clauses decided (necessary conditions of C07):
          write path (_save_, _save_created_, _save_updated_, _update_dbvals_) never consults the converters' tolerant
          comparison dbvals_equal, which exists to compare what the *database returned* with what the session remembers; in
          Entity._save_created_ every attribute that has a value contributes to the INSERT.
+ PARAM   a write-side conversion (py2sql / val2dbval) does not consult an option that only init(kwargs) sets (precision, ...): a converter
+         created for a query parameter never ran init, so the same value would be spelt differently as a parameter and as a stored value.
+ DISPATCH as C06-DISPATCH, over the converter modules.
 """
 # for Json / array attributes "the value the program saw after the flush" includes its in-place changes: that they are tracked and written (C28) is a
 # necessary condition of C07 for those attribute types
